@@ -56,6 +56,7 @@ type Cfg struct {
 	Routes  []Route  `json:"routes,omitempty"`
 	Imports []string `json:"imports,omitempty"` // import paths (relative to mod) per file
 	Shape   string   `json:"shape,omitempty"`
+	Special string   `json:"special,omitempty"` // hand-written import graphs: stdlib | pkgname | filesys_m | filesys_p
 	PkgPath string   `json:"pkg_path"` // relative to mod
 }
 
@@ -136,6 +137,9 @@ func genFfiCfg(root string, c Cfg) {
 var comps = []string{"a", "a-b", "a.b", "a_b", "trusted_x", "x-y.z"}
 
 func pkgIdent(comp string) string { // Go package name for a path component
+	if strings.HasPrefix(comp, "trusted_") {
+		return comp // "packages named trusted_*": the package clause decides, and here it agrees with the directory
+	}
 	return "p" + strings.NewReplacer(".", "", "-", "", "_", "").Replace(comp)
 }
 
@@ -144,7 +148,35 @@ func genLib(root, rel string) {
 	write(root, rel+"/l.go", fmt.Sprintf("package %s\n\nfunc Use() uint64 {\n\treturn 1\n}\n", pkgIdent(comp)))
 }
 
+// specials: import shapes the path alphabet cannot spell (absolute one-element paths, a package clause that differs
+// from the directory name, the two variants of a prelude-modelled package).  want = the Require lines of the header.
+var specials = map[string]struct {
+	files map[string]string // relative to the client package, or to the module when starting with "/"
+	want  []string
+}{
+	"stdlib": {map[string]string{"r0.go": "package c\n\nimport (\n\t\"errors\"\n\t\"sort\"\n)\n\nfunc F(xs []string) {\n\tsort.Strings(xs)\n}\n\nfunc G() {\n\terrors.New(\"x\")\n}\n"},
+		[]string{"From Goose Require errors.", "From Goose Require sort."}},
+	"pkgname": {map[string]string{
+		"/special/tlib/t.go":        "package trusted_tlib\n\nfunc F() uint64 {\n\treturn 1\n}\n",
+		"/special/trusted_dir/t.go": "package plain\n\nfunc G() uint64 {\n\treturn 2\n}\n",
+		"r0.go": "package c\n\nimport (\n\t\"" + mod + "/special/tlib\"\n\t\"" + mod + "/special/trusted_dir\"\n)\n\nfunc F() uint64 {\n\treturn trusted_tlib.F() + plain.G()\n}\n"},
+		[]string{"From Goose Require " + strings.ReplaceAll(mapPath(mod), "/", ".") + ".special.trusted_dir.",
+			"From Perennial.goose_lang.trusted Require Import " + strings.ReplaceAll(mapPath(mod), "/", ".") + ".special.tlib."}},
+	"filesys_m": {map[string]string{"r0.go": "package c\n\nimport \"github.com/goose-lang/goose/machine/filesys\"\n\nfunc F() {\n\tfd, _ := filesys.Create(\"dir\", \"name\")\n\tfilesys.Close(fd)\n}\n"}, nil},
+	"filesys_p": {map[string]string{"r0.go": "package c\n\nimport \"github.com/goose-lang/primitive/filesys\"\n\nfunc F() {\n\tfd, _ := filesys.Create(\"dir\", \"name\")\n\tfilesys.Close(fd)\n}\n"}, nil},
+}
+
 func genImportsCfg(root string, c Cfg) {
+	if c.Special != "" {
+		for rel, content := range specials[c.Special].files {
+			if strings.HasPrefix(rel, "/") {
+				write(root, rel[1:], content)
+			} else {
+				write(root, c.PkgPath+"/"+rel, content)
+			}
+		}
+		return
+	}
 	if c.Shape == "dup_between" {
 		// file 0 imports p and q, file 1 imports p again: duplicates that are not adjacent in source order
 		p, q := c.Imports[0], c.Imports[1]
@@ -249,6 +281,10 @@ func configs(tier string) (cfgs []Cfg, libs []string) {
 			cfgs = append(cfgs, Cfg{Kind: "imports", Name: "same_base:" + p + "," + q, Imports: []string{p, q}, Shape: "two", PkgPath: fmt.Sprintf("cfg/i%04d", n)})
 		}
 	}
+	for _, sp := range []string{"stdlib", "pkgname", "filesys_m", "filesys_p"} {
+		n++
+		cfgs = append(cfgs, Cfg{Kind: "imports", Name: "special:" + sp, Special: sp, Shape: "single", PkgPath: fmt.Sprintf("cfg/i%04d", n)})
+	}
 	// clients whose own path needs mapping (output file placement)
 	for _, c1 := range comps {
 		for _, c2 := range comps {
@@ -275,6 +311,8 @@ func check(c Cfg, outDir string, refusedRun bool, exit int, stderr string) (kind
 				wantReq = append(wantReq, wantRequire(p))
 			}
 		}
+	} else if c.Special != "" {
+		wantReq = append(wantReq, specials[c.Special].want...)
 	} else {
 		for _, imp := range c.Imports {
 			wantReq = append(wantReq, wantRequire(mod+"/"+imp))
